@@ -166,6 +166,58 @@ CHECKS["C02"] = dict(
          "verifier evaluates the protocol's predicate and nothing weaker. Trusted: encoder, z3, summaries as in C01, computeBVector (C04/C18).",
     technique="SSA symbolic execution + z3 identity checking; enumeration of shapes")
 
+CHECKS["C06"] = dict(
+    category="proof",
+    text="banderwagon.setBytes/SetBytes, SetBytesUncompressed(untrusted), subgroupCheck and bandersnatch.GetPointFromX/computeY executed from "
+         "SSA over a symbolic byte string of every length in {0,1,31,32,33,63,64,65,66} (thorough 0..66): success exactly when the length is "
+         "right, x is a canonical encoding, the right-hand side (a x^2-1)/(d x^2-1) is a square, the Legendre symbol of 1-a x^2 is +1 and "
+         "(uncompressed) the y bytes equal the recomputed largest root; accepted input re-encodes to the same bytes, decodes with Z=1, "
+         "satisfies the curve equation (cofactor certificate), input slice untouched, no panic.",
+    design_ref="DESIGN.md section 5 / C06",
+    note="Trusted: encoder, z3, canonical/reducing field decoders, SqrtPrecomp (C17) and Legendre as uninterpreted contracts, sign predicate. "
+         "Outside: that the tests characterise the prime-order subgroup (number theory).",
+    technique="SSA symbolic execution in the rational domain with uninterpreted field predicates + SMT")
+CHECKS["C07"] = dict(
+    category="proof",
+    text="Element.Bytes / Equal / BytesUncompressedTrusted / SetBytesUncompressed(trusted) / MapToScalarField executed from SSA (with gnark's "
+         "FromProj, Div) on free coordinate symbols (Y,Z non-zero; Z=1 fast path): Bytes, Equal and the map are invariant under projective "
+         "scaling by any lambda, under (-X,-Y,Z), both, and normalisation; Equal reflexive/symmetric across representations and false "
+         "whenever either side is the all-zero value; uncompressed trusted round trip Equal.",
+    design_ref="DESIGN.md section 5 / C07",
+    note="Trusted: encoder, z3 polynomial identities, sign predicate axiom, injective canonical encoding. Outside (number theory about d): "
+         "x1 y2 = x2 y1 IMPLIES same class; decode(encode(P)) through the real decoder only on the native side and via C06.",
+    technique="SSA symbolic execution into rational-function terms; identities by z3 polynomial normal form; congruence oracles for field predicates")
+CHECKS["C11"] = dict(
+    category="proof",
+    text="MapToScalarField is IOTA(X/Y) (argument identical to X/Y, not Y/X, independent of Z) and invariant under every re-representation "
+         "(C07 harness); BatchMapToScalarField equals the single-element map position by position for every pointer list of length <= 3 "
+         "over a 3-element pool, including the identity element with stale result slots.",
+    design_ref="DESIGN.md section 5 / C11",
+    note="Trusted: as C07; the base-field-bytes -> scalar reduction is an uninterpreted function of the base-field value (byte-level "
+         "behaviour of fp.BytesLE / fr.SetBytesLE is outside: C16 covers the scalar decoder).",
+    technique="SSA symbolic execution into rational-function terms + z3 identity checking")
+CHECKS["C19"] = dict(
+    category="proof",
+    text="ElementsToBytes, BatchToBytesUncompressed, BatchMapToScalarField and BatchNormalize executed from SSA on symbolic coordinates for "
+         "every pointer list of length 0..3 (thorough 4) over a 3-element pool (all aliasing patterns), optional Z=1 / X=0 elements, one "
+         "un-normalisable element at each position, both de-duplication map orders: batch = single position by position; BatchNormalize "
+         "gives Z=1, X/Z, Y/Z on success and changes nothing on failure.",
+    design_ref="DESIGN.md section 5 / C19",
+    note="Trusted: as C07; gnark BatchInvert by contract. Outside: longer lists (partition boundaries are C20).",
+    technique="SSA symbolic execution into rational-function terms + z3 identity checking; aliasing patterns enumerated")
+CHECKS["C12"] = dict(
+    category="other",
+    text="Sufficient conditions for race freedom and absence of blocking, decided on the access/event log of symbolic runs of the real "
+         "fan-out code (BatchNormalize, groupPolynomialsByEvaluationPoint, msmC4..8, partitionScalars, MultiExp split, CreateMultiProof): "
+         "every pair of conflicting accesses from different goroutines is ordered by spawn / WaitGroup / channel happens-before; buffered "
+         "sends never block, receives never wait on an empty channel after all senders finished, close after all sends, Wait counters "
+         "return to zero; shared configuration only read (frame obligations).",
+    design_ref="DESIGN.md section 5 / C12",
+    note="NOT an exhaustive schedule exploration: interleavings are not enumerated; the claim is the data-race-freedom condition on the "
+         "recorded accesses (sound when goroutine bodies do not branch on racing data). sync.Pool / sync.Once trusted; NewPrecompPoint and "
+         "msmC9+ not covered.",
+    technique="SSA symbolic execution with access/event logs; happens-before conditions as solver obligations")
+
 NOT_YET = {}
 
 ALL = ["C%02d" % i for i in range(1, 21)]
